@@ -137,6 +137,17 @@ Check (C17_operation_check_schema_permutation : forall S S',
   NoDup (map C03.Model.tname (C17.OpPerm.tdefs S)) -> NoDup (map C17.OpPerm.dname (C17.OpPerm.ddefs S)) ->
   (List.length (C17.OpPerm.sdefs S) <= 1)%nat ->
   forall D, C03.Model.check_operation_document S D = C03.Model.check_operation_document S' D).
+Check (C17_check_verdict_source_permutation : forall user user' builtins,
+  Permutation user user' ->
+  NoDup (map C05.Model.tname (C17.CheckPerm.tdefs (user ++ builtins))) -> C17.CheckPerm.user_positioned user ->
+  (C05.Model.check_doc (user ++ builtins) = [] <-> C05.Model.check_doc (user' ++ builtins) = [])).
+Check (C17_check_diagnostics_source_permutation : forall user user' builtins,
+  Permutation user user' ->
+  NoDup (map C05.Model.tname (C17.CheckPerm.tdefs (user ++ builtins))) -> C17.CheckPerm.user_positioned user ->
+  C17.CheckPerm.user_dup [] (user ++ builtins) = false ->
+  Permutation (C05.Model.check_doc (user ++ builtins)) (C05.Model.check_doc (user' ++ builtins))).
+Check (C17_duplicate_user_directive_rejected : forall doc defs seen,
+  C17.CheckPerm.user_dup seen defs = true -> C05.Model.check_defs doc seen defs <> []).
 Print Assumptions C17_all_sites_accounted.
 Print Assumptions C17_known_sites_all_scanned.
 Print Assumptions C17_all_hash_files_accounted.
@@ -174,3 +185,6 @@ Print Assumptions C17_skeleton_shape.
 Print Assumptions C17_check_verdict_permutation_partial.
 Print Assumptions C17_check_verdict_permutation_full_refuted.
 Print Assumptions C17_operation_check_schema_permutation.
+Print Assumptions C17_check_verdict_source_permutation.
+Print Assumptions C17_check_diagnostics_source_permutation.
+Print Assumptions C17_duplicate_user_directive_rejected.
